@@ -496,6 +496,7 @@ func (w *world) step(l Letter, check bool) {
 		}
 	}
 	terminated := s.ended
+	wasPrim := w.prim == l.S
 	if terminated {
 		w.sessionGone(l.S)
 	}
@@ -541,6 +542,11 @@ func (w *world) step(l Letter, check bool) {
 			}
 			if len(newR) > 0 {
 				w.bad("C09/response-before-terminating-status", "%s: %d responses were sent before the RPC was ended: %v", l.Name, len(newR), texts(newR))
+			}
+			if wasPrim && after.held == "" {
+				// the violating session was the primary: its RPC ended, and the operations held for it are
+				// cancelled with its session (specification 4.1.3) - that is not a side effect on others
+				before.held = ""
 			}
 			if before != after {
 				w.bad("C09/violation-had-side-effects/"+diffSnap(before, after), "%s (%v): server state changed: %+v -> %+v", l.Name, exp.why, before, after)
